@@ -414,7 +414,12 @@ func (p *DutyCycleReqPayload) UnmarshalBinary(data []byte) error {
 	if len(data) != 1 {
 		return errors.New("lorawan: 1 byte of data is expected")
 	}
-	p.MaxDCycle = data[0]
+	// bits 7..4 are RFU, except for the LoRaWAN 1.0.x value 255
+	if data[0] == 255 {
+		p.MaxDCycle = 255
+	} else {
+		p.MaxDCycle = data[0] & 0x0f
+	}
 	return nil
 }
 
@@ -585,10 +590,12 @@ func (p *DevStatusAnsPayload) UnmarshalBinary(data []byte) error {
 		return errors.New("lorawan: 2 bytes of data are expected")
 	}
 	p.Battery = data[0]
-	if data[1] > 31 {
-		p.Margin = int8(data[1]) - 64
+	// bits 7..6 are RFU, bits 5..0 hold the signed margin
+	margin := data[1] & 0x3f
+	if margin > 31 {
+		p.Margin = int8(margin) - 64
 	} else {
-		p.Margin = int8(data[1])
+		p.Margin = int8(margin)
 	}
 	return nil
 }
@@ -705,7 +712,8 @@ func (p *RXTimingSetupReqPayload) UnmarshalBinary(data []byte) error {
 	if len(data) != 1 {
 		return errors.New("lorawan: 1 byte of data is expected")
 	}
-	p.Delay = data[0]
+	// bits 7..4 are RFU
+	p.Delay = data[0] & 0x0f
 	return nil
 }
 
@@ -1034,7 +1042,8 @@ func (v *Version) UnmarshalBinary(data []byte) error {
 	if len(data) != 1 {
 		return errors.New("lorawan: 1 byte of data is expected")
 	}
-	v.Minor = data[0]
+	// bits 7..4 are RFU
+	v.Minor = data[0] & 0x0f
 	return nil
 }
 
